@@ -4,7 +4,7 @@ import ast
 
 from .. import contracts as K
 from ..model import call_name, is_self_attr, walk_no_nested
-from .c06 import FAMILIES, row_independence, symmetry
+from .c06 import FAMILIES, row_independence, shortcut_consistency, symmetry
 
 
 def run(ctx, rep):
@@ -38,6 +38,9 @@ def run(ctx, rep):
         else:
             rep.check('D1.log', m, m.node.name, form == want, 'np.log(self.probability_density(X))',
                       'log_probability_density is not the logarithm of probability_density of the same points')
+    rep.rule('D5.shortcut', 'an early-return shortcut of a family density / conditional CDF is the independence value (1, resp. u), unless its guard is an invalid theta')
+    shortcut_consistency(ctx, rep, 'D5.shortcut', 'probability_density')
+    shortcut_consistency(ctx, rep, 'D5.shortcut', 'partial_derivative')
     symmetry(ctx, rep, 'D2.sym', 'probability_density')
     row_independence(ctx, rep, 'D3.rows', ['probability_density', 'partial_derivative'])
     # the base-class finite-difference fallback perturbs a copy and is elementwise
